@@ -33,6 +33,56 @@ def withTimeout (parent : Deadline) (now t : Int) : Deadline :=
 def checkedTimeout (routeTimeout confTimeoutMs : Int) : Int :=
   if routeTimeout > 0 then routeTimeout else confTimeoutMs * 1000000
 
+/-! ### rest/server.go + rest/engine.go: which duration reaches `TimeoutHandler` for a route -/
+
+/-- a `RouteOption` as far as the timeout is concerned -/
+inductive RouteOpt where
+  | timeout (t : Int)   -- WithTimeout(t):  r.timeout = t
+  | sse                 -- WithSSE():       r.sse = true; r.timeout = 0
+  | other               -- WithPriority / WithMaxBytes / WithJwt / …: leave `timeout` alone
+  deriving Repr, DecidableEq
+
+/-- `AddRoutes`: `for _, opt := range opts { opt(&r) }` on a zero `featuredRoutes`; its `timeout` field afterwards. -/
+def groupTimeout (opts : List RouteOpt) : Int :=
+  opts.foldl (fun t o => match o with | .timeout x => x | .sse => 0 | .other => t) 0
+
+/-- is the timeout middleware in the chain?  `on`: `Middlewares.Timeout`; `off`: not; `chain`: a user chain
+(`WithChain`) replaces the native middlewares altogether. -/
+inductive MwMode where
+  | on | off | chain
+  deriving Repr, DecidableEq
+
+/-- the engine: `conf.Timeout` (ms), the groups' `timeout` fields in registration order, and `ng.timeout`
+(the running maximum that only feeds http.Server's Read/WriteTimeout). -/
+structure Eng where
+  confMs  : Int
+  mw      : MwMode
+  routes  : List Int
+  timeout : Int
+  deriving Repr, DecidableEq
+
+/-- `newEngine(c)` -/
+def Eng.new (confMs : Int) (mw : MwMode) : Eng :=
+  { confMs := confMs, mw := mw, routes := [], timeout := confMs * 1000000 }
+
+/-- `addRoutes(r)`: append, and `if r.timeout > ng.timeout { ng.timeout = r.timeout }` -/
+def Eng.addRoutes (e : Eng) (opts : List RouteOpt) : Eng :=
+  { e with routes := e.routes ++ [groupTimeout opts],
+           timeout := if groupTimeout opts > e.timeout then groupTimeout opts else e.timeout }
+
+def Eng.build (confMs : Int) (mw : MwMode) (groups : List (List RouteOpt)) : Eng :=
+  groups.foldl Eng.addRoutes (Eng.new confMs mw)
+
+/-- `bindRoutes`: per group (in order) the duration handed to `handler.TimeoutHandler` —
+`ng.checkedTimeout(fr.timeout)` if the middleware is in the chain; 0 stands for "no timeout middleware". -/
+def Eng.bound (e : Eng) : List Int :=
+  e.routes.map fun t => match e.mw with
+    | .on => checkedTimeout t e.confMs
+    | _ => 0
+
+/-- duration of the timeout middleware in front of the routes of group `g` (`none`: no such group) -/
+def Eng.duration (e : Eng) (g : Nat) : Option Int := e.bound[g]?
+
 /-- What a request looks like to the REST timeout middleware. -/
 structure ReqHdr where
   upgradeWebsocket : Bool   -- r.Header.Get("Upgrade") == "websocket"
@@ -71,6 +121,25 @@ def cliWraps (dflt : Int) (opts : List (Option Int)) : Bool := decide (cliTimeou
 
 def cliDeadline (dflt : Int) (opts : List (Option Int)) (parent : Deadline) (now : Int) : Deadline :=
   if cliWraps dflt opts then withTimeout parent now (cliTimeout dflt opts) else parent
+
+/-! ### zrpc wiring: which timeout reaches the interceptors (zrpc/server.go, zrpc/client.go, zrpc/internal/client.go) -/
+
+/-- `setupUnaryInterceptors`: the timeout interceptor is installed only `if c.Timeout > 0`, with
+`time.Duration(c.Timeout)*time.Millisecond` and `c.MethodTimeouts` — with `Timeout ≤ 0` ("no timeout") the method
+table is not consulted at all. -/
+def srvWiredDeadline (confMs : Int) (mts : List (Nat × Int)) (method : Nat) (parent : Deadline) (now : Int) : Deadline :=
+  if confMs > 0 then srvDeadline (confMs * 1000000) mts method parent now else parent
+
+/-- `NewClient`: `WithTimeout(c.Timeout ms)` is put in front of the user's `ClientOption`s only `if c.Timeout > 0`;
+`buildDialOptions` applies the options in order on a zero `ClientOptions` (the last `WithTimeout` wins). -/
+def cliConfTimeout (confMs : Int) (userTimeouts : List Int) : Int :=
+  ((if confMs > 0 then [confMs * 1000000] else []) ++ userTimeouts).foldl (fun _ t => t) 0
+
+/-- `buildUnaryInterceptors`: `TimeoutInterceptor(cliOpts.Timeout)` only under `middlewares.Timeout`; per call the
+first `WithCallTimeout` option overrides it (`cliTimeout`). -/
+def cliWiredDeadline (mwTimeout : Bool) (confMs : Int) (userTimeouts : List Int) (callOpts : List (Option Int))
+    (parent : Deadline) (now : Int) : Deadline :=
+  if mwTimeout then cliDeadline (cliConfTimeout confMs userTimeouts) callOpts parent now else parent
 
 /-- `fx.DoWithTimeout(fn, timeout, opts…)`: parent = context of the *last* option, else Background. -/
 def fxParent (opts : List Deadline) : Deadline :=
@@ -135,6 +204,7 @@ structure TW where
   wbuf        : List Nat := []
   wroteHeader : Bool := false
   timedOut    : Bool := false
+  flushed     : Bool := false   -- (fix C04-flush-after-timeout) the status line went out with a Flush
   deriving Repr, DecidableEq
 
 def TW.init : TW := {}
@@ -144,7 +214,7 @@ inductive Act where
   | setHeader (k v : Nat)       -- w.Header().Set(k, v)        (no lock: Header() hands out the map)
   | writeHeader (code : Nat)    -- w.WriteHeader(code)         (under tw.mu)
   | write (b : List Nat)        -- w.Write(b)                  (under tw.mu)
-  | flush                       -- w.(http.Flusher).Flush()    (NO lock, ignores timedOut)
+  | flush                       -- w.(http.Flusher).Flush()    (under tw.mu, nothing once timedOut; pinned code: no lock)
   | panic (v : Nat)             -- panic(v)
   deriving Repr, DecidableEq
 
@@ -182,17 +252,41 @@ def twStep (t : TW) : Act → TW × Res
 /-- the handler run to the end of a list of actions on its own (no timeout) -/
 def runTW (t : TW) (acts : List Act) : TW := acts.foldl (fun t a => (twStep t a).1) t
 
-/-- `case <-done:` of ServeHTTP: copy the buffered headers, status (only if ≠ 200) and body to the real writer. -/
+/-- `case <-done:` of ServeHTTP: copy the buffered headers, status (only if ≠ 200 and not already sent by a Flush)
+and body to the real writer. -/
 def doneBranch (w : Rec) (t : TW) : Rec :=
   let w1 : Rec := { w with hdr := hmerge w.hdr t.h }
-  let w2 := if t.code != 200 then w1.writeHeader t.code else w1
+  let w2 := if t.code != 200 && !t.flushed then w1.writeHeader t.code else w1
   w2.write t.wbuf
 
-/-- `Flush()` of timeoutWriter as it exists: copy headers, write the buffer straight to the real writer,
-reset the buffer, flush — without `mu`, without looking at `timedOut`, without the buffered status. -/
+/-- the body of `Flush()` (fixed code, run under `mu` when not `timedOut`): copy headers, send the buffered status with
+the first flush, write the buffer straight to the real writer, reset the buffer, flush. -/
 def flushNow (w : Rec) (t : TW) : Rec × TW :=
   let w1 : Rec := { w with hdr := hmerge w.hdr t.h }
+  let w2 := if !t.flushed && t.code != 200 then w1.writeHeader t.code else w1
+  ((w2.write t.wbuf).flush, { t with wbuf := [], flushed := true })
+
+/-- `Flush()` as pinned (before fixes/C04-flush-after-timeout.patch): without `mu`, without looking at `timedOut`,
+without the buffered status. -/
+def flushNowPinned (w : Rec) (t : TW) : Rec × TW :=
+  let w1 : Rec := { w with hdr := hmerge w.hdr t.h }
   ((w1.write t.wbuf).flush, { t with wbuf := [] })
+
+/-- result of `tw.Hijack()` as the handler sees it -/
+inductive HijRes where
+  | ok            -- the underlying writer handed the connection over
+  | refused       -- ErrHandlerTimeout
+  | unsupported   -- "server doesn't support hijacking"
+  deriving Repr, DecidableEq
+
+/-- `timeoutWriter.Hijack` (fixed code, fixes/C04-hijack-after-timeout.patch): under `mu`; once `timedOut` the connection
+is not the handler's any more; else pass through to the underlying writer if it is a Hijacker. -/
+def hijack (t : TW) (supported : Bool) : HijRes :=
+  if t.timedOut then .refused else if supported then .ok else .unsupported
+
+/-- `Hijack` as pinned: no lock, no `timedOut` test -/
+def hijackPinned (_t : TW) (supported : Bool) : HijRes :=
+  if supported then .ok else .unsupported
 
 /-- the response of the timeout branch on a fresh writer -/
 def timeoutResp (reason : List Nat) (k : Kind) : Rec := (Rec.init.writeHeader (statusOf k)).write reason
@@ -252,8 +346,9 @@ def hstep (s : St) : Option St :=
     match s.script[s.hpc]? with
     | none => some { s with hst := .finished, done := true }
     | some .flush =>
-      let r := flushNow s.w s.tw
-      some { s with w := r.1, tw := r.2, hpc := s.hpc + 1, log := s.log ++ [.ok] }
+      if s.mu then none
+      else if s.tw.timedOut then some { s with hpc := s.hpc + 1, log := s.log ++ [.ok] }
+      else some { s with w := (flushNow s.w s.tw).1, tw := (flushNow s.w s.tw).2, hpc := s.hpc + 1, log := s.log ++ [.ok] }
     | some (.setHeader k v) =>
       some { s with tw := (twStep s.tw (.setHeader k v)).1, hpc := s.hpc + 1, log := s.log ++ [.ok] }
     | some (.panic v) =>
@@ -282,6 +377,21 @@ def step (reason : List Nat) (s : St) : Label → Option St
     | .t2 k => some { s with w := s.w.write reason, pc := .t3 k }
     | .t3 k => some { s with tw := { s.tw with timedOut := true }, mu := false, pc := .retTimeout k }
     | _ => none
+
+/-- the pinned code (before the fix): `Flush` needs no lock and ignores `timedOut`; everything else as `step` -/
+def stepPinned (reason : List Nat) (s : St) : Label → Option St
+  | .h =>
+    match s.hst, s.script[s.hpc]? with
+    | .running, some .flush =>
+      some { s with w := (flushNowPinned s.w s.tw).1, tw := (flushNowPinned s.w s.tw).2, hpc := s.hpc + 1, log := s.log ++ [.ok] }
+    | _, _ => hstep s
+  | l => step reason s l
+
+def runLabelsPinned (reason : List Nat) (s : St) : List Label → Option St
+  | [] => some s
+  | l :: ls => match stepPinned reason s l with
+    | some s' => runLabelsPinned reason s' ls
+    | none => none
 
 /-- run a schedule; `none` if some step is not enabled -/
 def runLabels (reason : List Nat) (s : St) : List Label → Option St
